@@ -20,7 +20,7 @@ func init() {
 			"R4.2: every store to the current temporal layer is 'wanted layer at the start of a keyframe', 'a lower wanted layer at the start of a frame', 'the packet's layer at a frame start that the codec marks as up-switch point and that is not above the wanted layer', or 'follow a new top layer while at the top'. " +
 			"R4.3: the highest-seen layers only grow and only to the packet's own layer; adjustLayer moves a wanted layer by exactly one step inside [0, highest seen] (or to 0), at most one store per call, and touches nothing else; no other function stores the current or highest layers. " +
 			"R4.4: no path of Write reaches the sequence-number map (and hence a write) with the packet's temporal or spatial layer above the current one without first asking the map to withhold it. " +
-			"R4.5: replaceTracks installs the low-quality limit on every track and resets the wanted spatial layer to 0 with it; adjustLayer steers a limited track to layer 0 before anything else and never raises it; requestedTracks sets the limit only for a low-quality request on a publisher without simulcast. " +
+			"R4.5: replaceTracks installs the low-quality limit on every track and resets the wanted spatial layer to 0 with it; adjustLayer never stores a wanted spatial layer other than 0 on a limited track (so that, with the reset at installation and Write's not-limited guard, every stored selection with the limit has wantedSid 0); requestedTracks sets the limit only for a low-quality request on a publisher without simulcast. " +
 			"R4.6 (proof): every value stored into the loss-based ceiling lies in [minLossRate, maxLossRate].",
 		NotDecided: []string{
 			"that a drop attempt succeeds (only in-order packets can be withheld: C01 R1.2)",
